@@ -34,6 +34,8 @@ template< typename Rule > struct ctlnu : normal< Rule > {
    template< typename In > static void success( const In& );
    template< typename In > static void failure( const In& );
 };
+// an opaque rule with the plain match( in ) signature of the leaf rules
+struct RL { using rule_t = RL; using subs_t = empty_list; template< typename In > [[nodiscard]] static bool match( In& in ); };
 // contrib/state_control.hpp: hooks forwarded to a state object, also for rules the wrapped control does not report
 using HR = internal::seq< R<0> >;      // enable_control< HR > is false: normal< HR > has no hooks of its own
 struct ST {
@@ -57,7 +59,8 @@ def rname(act, ctl, a, m, tr):
 
 def all_roots():
     return [(act, ctl, a, m, tr) for act in ACTIONS for ctl in CONTROLS for a, m in AM for tr in ('eager', 'lazy')] + \
-           [('nothing', 'sc', a, m, tr) for a, m in AM for tr in ('eager', 'lazy')]
+           [('nothing', 'sc', a, m, tr) for a, m in AM for tr in ('eager', 'lazy')] + \
+           [('nothing', 'lc', a, m, tr) for a, m in AM for tr in ('eager', 'lazy')]
 
 
 def tu_for(tracking):
@@ -67,6 +70,9 @@ def tu_for(tracking):
             continue
         if ctl == 'sc':
             s += tu_root(rname(act, ctl, a, m, tr), INPUT_TYPES[(tr, 'lf_crlf')], 'tao::pegtl::match< HR, A%d, M%d, nothing, SCN >( in, st )' % (a, m), ', ST& st')
+            continue
+        if ctl == 'lc':
+            s += tu_root(rname(act, ctl, a, m, tr), INPUT_TYPES[(tr, 'lf_crlf')], 'tao::pegtl::match< RL, A%d, M%d, nothing, ctl >( in )' % (a, m))
             continue
         s += tu_root(rname(act, ctl, a, m, tr), INPUT_TYPES[(tr, 'lf_crlf')],
                      'tao::pegtl::match< R<0>, A%d, M%d, %s, %s >( in )' % (a, m, act, ctl))
@@ -186,7 +192,7 @@ def spec(act, ctl, a, m, tr):
     # ---- C08
     if hooks:
         con.add(E('g_n_start == 1', 'HOOK-START-EXACTLY-ONCE', P8))
-        if ctl in ('ctl', 'sc'):
+        if ctl in ('ctl', 'sc', 'lc'):
             con.add(E('g_n_success + g_n_failure + g_n_unwind == 1', 'HOOK-EXACTLY-ONE-CLOSING', P8))
             con.add(E('(g_h == H_UNWOUND) == (vf_exc.pending != 0)', 'HOOK-UNWIND-IFF-EXCEPTION-PASSES', P8))
         else:
@@ -207,10 +213,20 @@ def jobs(tier):
             continue
         con, inner_m, has_action = spec(act, ctl, a, m, tr)
         stubs = [(r'^bool vf::R<\d+>::match<', rule_stub_h(a, inner_m))]
+        if ctl == 'lc':
+            # the leaf-signature rule: same oracle, no modes in its signature (a leaf never consumes when it fails)
+            def leaf_stub(fi, a=a):
+                fi2 = dict(fi)
+                fi2['pretty'] = 'bool vf::R<0>::match<(tao::pegtl::apply_mode)%d, (tao::pegtl::rewind_mode)0, leaf>' % a
+                return rule_stub_h(a, 0)(fi2)
+            stubs = [(r'^bool vf::RL::match<', leaf_stub)]
         for k in ('start', 'success', 'failure', 'unwind'):
             if ctl == 'sc':
                 # unwind is optional: when the control loses its unwind hook the protocol clauses (exactly one closing hook) report it
                 stubs.append((r'vf::ST::%s<' % k, hook_stub(k)) + (('opt',) if k == 'unwind' else ()))
+                continue
+            if ctl == 'lc':
+                stubs.append((r'vf::ctl<vf::RL>::%s<' % k, hook_stub(k)) + (('opt',) if k == 'unwind' else ()))
                 continue
             if ctl == 'normal' or (k == 'unwind' and ctl != 'ctl'):
                 continue
